@@ -18,3 +18,21 @@ package signature
 //@   ensures [embedded-verified] signatureFormat != "" && err == nil ==> verifiedStr(signatureFormat, recipient, old(hdr.PAXRecords["STFS.EmbeddedHeader"]))
 //@   ensures [header-is-embedded] signatureFormat != "" && err == nil ==> hdr.Name == jsonStr(old(hdr.PAXRecords["STFS.EmbeddedHeader"]), "Name") && hdr.Linkname == jsonStr(old(hdr.PAXRecords["STFS.EmbeddedHeader"]), "Linkname") && hdr.Size == jsonInt(old(hdr.PAXRecords["STFS.EmbeddedHeader"]), "Size") && hdr.Mode == jsonInt(old(hdr.PAXRecords["STFS.EmbeddedHeader"]), "Mode") && hdr.Uid == jsonInt(old(hdr.PAXRecords["STFS.EmbeddedHeader"]), "Uid") && hdr.Gid == jsonInt(old(hdr.PAXRecords["STFS.EmbeddedHeader"]), "Gid") && hdr.Typeflag == jsonInt(old(hdr.PAXRecords["STFS.EmbeddedHeader"]), "Typeflag") && hdr.Uname == jsonStr(old(hdr.PAXRecords["STFS.EmbeddedHeader"]), "Uname") && hdr.Gname == jsonStr(old(hdr.PAXRecords["STFS.EmbeddedHeader"]), "Gname")
 //@   ensures [no-unsigned-records] signatureFormat != "" && err == nil ==> forall k string :: has(hdr.PAXRecords, k) ==> jsonHasPax(old(hdr.PAXRecords["STFS.EmbeddedHeader"]), k)
+
+// Content signatures: for a signing format, Verify hands back a closure that runs the library's signature check; only the
+// "no signature format" configuration gets a closure that accepts without checking.
+//@ func Verify
+//@   property C08
+//@   maybe result1 is ContentCheck
+//@   modifies *, hashInput
+//@   ensures [a-signing-format-returns-a-checking-closure] signatureFormat != "" && result2 == nil ==> conforms(result1, ContentCheck)
+
+//@ func Verify$1
+//@   property C08
+//@   conforms ContentCheck
+//@   modifies *, contentChecked
+
+//@ func Verify$2
+//@   property C08
+//@   conforms ContentCheck
+//@   modifies *, contentChecked
